@@ -55,6 +55,16 @@ func overlayFor(groups []Group) (map[string][]byte, map[string]string, error) {
 			ov[dst] = b
 			paths[dst] = src
 		}
+		for _, a := range g.Aux {
+			src := filepath.Join(verifDir, "harness", a.File)
+			b, err := os.ReadFile(src)
+			if err != nil {
+				return nil, nil, err
+			}
+			dst := filepath.Join(repoDir, a.Pkg, filepath.Base(a.File))
+			ov[dst] = b
+			paths[dst] = src
+		}
 	}
 	return ov, paths, nil
 }
@@ -122,6 +132,12 @@ type Tier struct {
 	Families      []map[string]int64 `json:"families"`
 }
 
+// AuxFile: a helper harness file overlaid into another package than the group's.
+type AuxFile struct {
+	Pkg  string `json:"pkg"`
+	File string `json:"file"`
+}
+
 type Group struct {
 	Pkg      string   `json:"pkg"`
 	Files    []string `json:"files"`
@@ -129,6 +145,7 @@ type Group struct {
 	Quick    Tier     `json:"quick"`
 	Thorough Tier     `json:"thorough"`
 	NoopPkgs []string `json:"noop_pkgs"`
+	Aux      []AuxFile `json:"aux"`
 	Note     string   `json:"note"`
 }
 
@@ -178,10 +195,17 @@ func cmdRun(args []string) int {
 	fallback := fs.Int("fallback-ms", 60000, "")
 	params := fs.String("params", "", "k=v,k=v")
 	verbose := fs.Bool("v", false, "")
+	aux := fs.String("aux", "", "pkg:file,pkg:file helper files overlaid into other packages")
 	fs.Parse(args)
 	g := Group{Pkg: *pkg, Funcs: *funcs}
 	if *files != "" {
 		g.Files = strings.Split(*files, ",")
+	}
+	if *aux != "" {
+		for _, a := range strings.Split(*aux, ",") {
+			pk, f, _ := strings.Cut(a, ":")
+			g.Aux = append(g.Aux, AuxFile{pk, f})
+		}
 	}
 	t0 := time.Now()
 	prog, pkgs, err := loadProgram([]Group{g})
